@@ -146,9 +146,10 @@ def in_loop_stmt(f, n):
     return any(a["k"] in ("ForStmt", "WhileStmt", "DoStmt", "CXXForRangeStmt") for a in f.ancestors(n))
 
 
-def facts_at(f, pos):
+def facts_at(f, pos, subst=False):
     """set of (atom key, truth) known at CFG position pos; conjunctions taken true and disjunctions taken
-    false are decomposed into their leaves"""
+    false are decomposed into their leaves. With subst the keys are in origin form (single-assignment locals
+    replaced by their initialisers)."""
     out = set()
 
     def add(n, truth):
@@ -168,7 +169,7 @@ def facts_at(f, pos):
             add(f.node(x["lhs"]), False)
             add(f.node(x["rhs"]), False)
             return
-        k, ap = atom(f, x)
+        k, ap = atom(f, x, subst=subst)
         out.add((k, ap == truth))
     if pos is None:
         return out
